@@ -9,7 +9,7 @@
    code (after 1e7055a5f and 77807d108). *)
 From Coq Require Import Sorted.
 From GixV.Base Require Import Bytes Outcome.
-From GixV.C04 Require Import Model Spec ProofsCmp ProofsSort ProofsSearch ProofsLevel ProofsInv ProofsExamples.
+From GixV.C04 Require Import Model Spec ProofsCmp ProofsSort ProofsSearch ProofsLevel ProofsInv ProofsForget ProofsExamples.
 
 (* one level of a path: the two binary searches find an entry of that name if and only if there is
    one (whatever its kind), else the insertion point that keeps git's order *)
@@ -46,6 +46,17 @@ Proof.
   pose proof (erun_inv ops _ _ sinv_init Hok Hrun) as [_ Ho].
   unfold OInv in Ho. rewrite Forall_forall in Ho. now apply Ho.
 Qed.
+
+(* the repair of the stale-subtree defect, at the level of the path-keyed map: once the entry `name` of the
+   tree at `base` is removed or replaced, no in-memory tree is left at base/name or below it (so nothing can
+   be picked up again when the path is re-created), and all other in-memory trees are untouched *)
+Theorem forgetting_a_directory_drops_exactly_its_subtrees : forall m base name m',
+  forget_trees_at_and_below m base name = Ok m' ->
+  exists p, push_path_component base name = Ok p /\
+    tm_get p m' = None /\
+    (forall k, starts_with (p ++ [slash]) k = true -> tm_get k m' = None) /\
+    (forall k, k <> p -> starts_with (p ++ [slash]) k = false -> tm_get k m' = tm_get k m).
+Proof. exact forget_spec. Qed.
 
 (* the part of the property that is NOT proved (tested by the correspondence run and the oracle only):
    writing equals building the resulting set of paths from scratch.  [denote] would map an editor state to
